@@ -283,6 +283,8 @@ def run_jit_rules(res, ast, which):
         rule_frame(res, ast, model)
     if "BR-JIT" in which:
         rule_branches(res, ast, model)
+    if "MC-ADDR" in which:
+        rule_mc_addr(res, ast, model)
 
 
 def base_inp(width=8, **kw):
@@ -731,31 +733,45 @@ def rule_lim_jit(res, ast, model):
     res.check(not errs, "LIM-JIT", key + "|template", w, "emit_limit_check: " + "; ".join(errs),
               detail=["emitted: " + "; ".join(fmt_seq(seq))])
     res.sample({"rule": "LIM-JIT", "emitted": fmt_seq(seq), "budget_offset": bud})
-    # placement in emit_program: evaluated for limited x {BrZ, BrNZ, other}
+    # placement in emit_program: the statements before the dispatching match are evaluated for
+    # limited x {BrZ, BrNZ, another instruction}: emit_limit_check must be emitted exactly for limited branches
     fn = model.emit_program["node"]
-    loop = [n for n in walk_t(fn["body"], "ForLoop")]
     ok_place = False
-    why = "no `if limited { if let BrZ|BrNZ = instr { self.emit_limit_check() } }` before `match instr`"
-    if len(loop) >= 1:
-        stmts = loop[0]["body"]["stmts"]
-        mi = None
-        for i, st in enumerate(stmts):
-            if st["t"] == "ExprStmt" and st["expr"] is model.match or (st["t"] == "ExprStmt" and st["expr"].get("sp") == model.match["sp"]):
-                mi = i
-        for i, st in enumerate(stmts[:mi] if mi is not None else []):
-            e = st.get("expr")
-            if st["t"] == "ExprStmt" and e["t"] == "If" and path_name(strip_paren(e["cond"])) == model.names["limited"] and e["else"] is None:
-                inner = e["then"]["stmts"]
-                if len(inner) == 1 and inner[0]["t"] == "ExprStmt" and inner[0]["expr"]["t"] == "If":
-                    c = strip_paren(inner[0]["expr"]["cond"])
-                    if c["t"] == "Let" and path_name(strip_paren(c["expr"])) == model.names["instr"]:
-                        pats = c["pat"]["cases"] if c["pat"]["t"] == "POr" else [c["pat"]]
-                        pn = sorted(p["path"]["name"] for p in pats if p["t"] == "PTupleStruct")
-                        calls = [m for m in walk_t(inner[0]["expr"]["then"], "MethodCall") if m["method"] == "emit_limit_check"]
-                        if pn == ["Instr::BrNZ", "Instr::BrZ"] and len(calls) == 1 and inner[0]["expr"]["else"] is None:
-                            ok_place = True
-                        else:
-                            why = f"budget check guards {pn}, expected both branch instructions"
+    why = "the loop body of emit_program could not be located"
+    for l in walk_t(fn["body"], "ForLoop"):
+        stmts = l["body"]["stmts"]
+        idx = [i for i, st in enumerate(stmts) if st["t"] == "ExprStmt" and st["expr"].get("sp") == model.match["sp"] and st["expr"]["t"] == "Match"]
+        if not idx:
+            continue
+        pre = stmts[:idx[0]]
+        ok_place = True
+        why = ""
+        for limited in (True, False):
+            for kind, ins in (("BrZ", InstrV("BrZ", [IdxV(0, "cond"), LinS(1, "off")])), ("BrNZ", InstrV("BrNZ", [IdxV(0, "cond"), LinS(1, "off")])),
+                              ("Out", InstrV("Out", [IdxV(0, "src")])), ("Noop", InstrV("Noop", []))):
+                it = JitInterp(model, base_inp(limited=limited))
+                env = Env()
+                env.bind("self", SelfV())
+                nm = model.names
+                env.bind(nm["instr"], ins)
+                env.bind(nm["live"], LiveV())
+                env.bind(nm["program"], Opaque("program"))
+                env.bind(nm["i"], Opaque("i"))
+                env.bind(nm["limited"], limited)
+                env.bind(nm["safe"], True)
+                try:
+                    it.exec_block({"t": "Block", "stmts": pre, "sp": l["body"]["sp"]}, env)
+                except (Unanalysable, Reached, ReturnEx) as u:
+                    ok_place = False
+                    why = f"statements before the dispatch cannot be analysed (fail closed): {u}"
+                    break
+                n = sum(1 for s_ in it.seq if s_[0] == "emit_limit_check")
+                want = 1 if (limited and kind in ("BrZ", "BrNZ")) else 0
+                if n != want:
+                    ok_place = False
+                    why = f"with limited = {limited} the budget check is emitted {n} time(s) before Instr::{kind}, expected {want}"
+            if not ok_place:
+                break
     res.check(ok_place, "LIM-JIT", key + "|placement", where(CODEGEN, fn, "emit_program"), why)
     # no other caller / no unguarded use
     callers = [(f2["name"], m) for f2 in ast.find_fns(CODEGEN) for m in walk_t(f2["node"].get("body") or {}, "MethodCall")
@@ -894,3 +910,22 @@ def rule_branches(res, ast, model):
             res.check(ok, "BR-JIT", f"{CODEGEN}|emit_program|{p['path']['name']}|target", where(CODEGEN, a, "emit_program"),
                       "branch target recorded in reloc_br is not i.wrapping_add_signed(off)")
             n += 1
+
+
+def rule_mc_addr(res, ast, model):
+    res.rule("MC-ADDR", "the machine code the JIT emits (and --print-jit-mc prints) contains no process-dependent value: no function or "
+             "data address is embedded as an immediate", floor=3, what="templates with runtime calls")
+    cases = [("Mov", InstrV("Mov", [LinS(1, "shift")])), ("Inp", InstrV("Inp", [IdxV(0, "dst")])), ("Out", InstrV("Out", [IdxV(0, "src")]))]
+    for op, instr in cases:
+        w = f"{CODEGEN} (emit_program, arm Instr::{op})"
+        try:
+            seq = jit_eval(model, instr, base_inp(8, safe=True))
+        except (Unanalysable, Reached) as u:
+            res.bad("MC-ADDR", f"{CODEGEN}|emit_program|Instr::{op}|unanalysable", w, f"arm cannot be analysed (fail closed): {u}")
+            continue
+        ptrs = sorted({a.name for n, args, _ in seq for a in args if isinstance(a, FnPtr)})
+        if not ptrs:
+            res.ok("MC-ADDR", f"{CODEGEN}|emit_program|Instr::{op}", w)
+        for pn in ptrs:
+            res.bad("MC-ADDR", f"{CODEGEN}|emit_program|Instr::{op}|{pn}", w,
+                    f"Instr::{op}: the absolute address of {pn} is embedded as an immediate: printed machine code differs between processes (ASLR)")
